@@ -350,6 +350,22 @@ def enum_small(tier, shard, nshards):
             yield sp
 
 
+def pred_f26(spec, clause, detail):
+    """a sequence-bearing collection with a variant collection; some gene / feature collection has a child with no base in a
+    query window that still overlaps the parent and a variant (the only situation in which the result cannot be built)"""
+    o = spec["obj"]
+    if not o.get("variant_collections") or spec.get("parent") not in ("chrom", "chunk"):
+        return False
+    groups = [[(t["exons"][0][0], t["exons"][-1][1]) for t in g["transcripts"]] for g in o.get("genes", [])] + \
+             [[(f["blocks"][0][0], f["blocks"][-1][1]) for f in c["features"]] for c in o.get("feature_collections", [])]
+    vspans = [(min(v["start"] for v in c["variants"]), max(v["end"] for v in c["variants"])) for c in o["variant_collections"]]
+    for kids in groups:
+        lo, hi = min(k[0] for k in kids), max(k[1] for k in kids)
+        if len(kids) >= 2 and any(a < hi and lo < b for a, b in vspans):
+            return True
+    return False
+
+
 PROP = Prop(
     pid="C09",
     legs=[
@@ -370,4 +386,5 @@ PROP = Prop(
         "variant collections are placed clear of genes/features (C13 covers haplotype incorporation)",
         "expanding a sequence-bearing collection beyond its bounds may be refused (documented)",
     ],
+    predicates={"f26": pred_f26},
 )
